@@ -130,6 +130,14 @@ func c19Ops() []c19Op {
 		ts := c.BuildTrafficSelectorResponder()
 		ts.TrafficSelectors.BuildIndividualTrafficSelector(7, 0, 0, 65535, ca([]byte{0, 0, 0, 0}), ca([]byte{255, 255, 255, 255}))
 	}), ref.Payload{T: ref.PTSr, TS: []ref.Selector{{Type: 7, SPort: 0, EPort: 65535, SAddr: []byte{0, 0, 0, 0}, EAddr: []byte{255, 255, 255, 255}}}})
+	add("BuildTrafficSelectorInitiator+opaque ports, inverted ranges", ok(func(c *message.IKEPayloadContainer) {
+		ts := c.BuildTrafficSelectorInitiator()
+		ts.TrafficSelectors.BuildIndividualTrafficSelector(7, 17, 65535, 0, ca([]byte{10, 0, 0, 9}), ca([]byte{10, 0, 0, 1}))
+		ts.TrafficSelectors.BuildIndividualTrafficSelector(8, 6, 443, 80, ca(univ.Pat(16, 10)), ca(univ.Pat(16, 9)))
+		ts.TrafficSelectors.BuildIndividualTrafficSelector(7, 0, 5, 5, ca([]byte{255, 255, 255, 255}), ca([]byte{0, 0, 0, 0}))
+	}), ref.Payload{T: ref.PTSi, TS: []ref.Selector{{Type: 7, Proto: 17, SPort: 65535, EPort: 0, SAddr: []byte{10, 0, 0, 9}, EAddr: []byte{10, 0, 0, 1}},
+		{Type: 8, Proto: 6, SPort: 443, EPort: 80, SAddr: univ.Pat(16, 10), EAddr: univ.Pat(16, 9)},
+		{Type: 7, Proto: 0, SPort: 5, EPort: 5, SAddr: []byte{255, 255, 255, 255}, EAddr: []byte{0, 0, 0, 0}}}})
 	add("BuildSecurityAssociation+proposal+transforms", ok(func(c *message.IKEPayloadContainer) {
 		sa := c.BuildSecurityAssociation()
 		p := sa.Proposals.BuildProposal(1, 3, ca(univ.Pat(4, 11)))
